@@ -296,7 +296,7 @@ def observer_arms(d, T, validated):
             '"ser" => { let fmt = inp["fmt"].as_str().unwrap(); let x: Inner = <Inner as Dec>::dec(&inp["v"]); '
             'match mk(x) { None => (json!({"k": "skip"}), Value::Null), Some(t) => { let v: Inner = t.clone().into_inner(); '
             'let mine = guard(|| match probe::ser(fmt, &t) { Ok(d) => json!({"k": "ok", "doc": d.repr()}), Err(e) => json!({"k": "sererr", "m": e}) }); '
-            'let reference = if fmt == "ron" { probe::ser(fmt, &refty::Nt(v.clone())) } else { probe::ser(fmt, &v) }; '
+            'let reference = if fmt.starts_with("ron") { probe::ser(fmt, &refty::Nt(v.clone())) } else { probe::ser(fmt, &v) }; '
             'let rdoc = reference.map(|d| d.repr()).unwrap_or(Value::Null); '
             'let same = mine.get("doc").map(|d| *d == rdoc).unwrap_or(false); '
             '(json!({"k": mine["k"], "same": same, "ref_ok": !rdoc.is_null()}), json!({"v": v.enc(), "doc": mine.get("doc"), "ref": rdoc})) } } }')
